@@ -36,6 +36,27 @@ Definition e_off := e_opt e_ff.
 
 Definition entry := (string * (list sx -> sx))%type.
 
+(* Iterator::nth(k) in terms of the state machine: k+1 calls of next (std's default; an override must agree),
+   stopping at the first None; a script is a list of k's, each step records (item, len afterwards) *)
+Fixpoint it_nth {V} (next : ic_iter V -> res (option V * ic_iter V)) (k : nat) (it : ic_iter V)
+  : res (option V * ic_iter V) :=
+  r <- next it ;;
+  match k, fst r with
+  | O, _ => Ok r
+  | _, None => Ok r
+  | S k', Some _ => it_nth next k' (snd r)
+  end.
+Fixpoint it_script {V} (next : ic_iter V -> res (option V * ic_iter V)) (ks : list nat) (it : ic_iter V)
+  : res (list (option V * nat)) :=
+  match ks with
+  | [] => Ok []
+  | k :: ks' =>
+      r <- it_nth next k it ;;
+      l <- ic_iter_len (snd r) ;;
+      rest <- it_script next ks' (snd r) ;;
+      Ok ((fst r, l) :: rest)
+  end.
+
 (* ---------------- C07: array primitives ---------------- *)
 Definition tbl_array : list entry := [
   ("a_get", a2 d_nats d_nat (fun xs i => e_rnat (get xs i)));
@@ -177,6 +198,10 @@ Definition tbl_ic : list entry := [
       e_res (e_list (e_pair e_nats N)) (l0 <- ic_iter_len (ic_into_iter c) ;;
                                         r <- ics_iter_run (ic_len c + 1) (ic_into_iter c) ;;
                                         Ok (([], l0) :: r))));
+  ("icf_iter_script", a2 d_icf d_nats (fun c ks =>
+      e_res (e_list (e_pair (e_opt e_ff) N)) (it_script icf_iter_next ks (ic_into_iter c))));
+  ("ics_iter_script", a2 d_ics d_nats (fun c ks =>
+      e_res (e_list (e_pair (e_opt e_nats) N)) (it_script ics_iter_next ks (ic_into_iter c))));
   ("ics_iter_slices", a1 d_ics (fun c => e_res (e_list e_nats) (ics_iter_slices c)));
   ("ops_new", a3 d_nats d_ics d_ics (fun x a b => e_opt e_ops (ops_new x a b)));
   ("ops_validate", a1 d_ops (fun p => e_opt e_ops (ops_validate p)));
